@@ -235,12 +235,69 @@ func resolveLoad(v ssa.Value) ssa.Value {
 			}
 		}
 		if len(b.Preds) != 1 {
-			return v
+			return resolveLoadDom(u, a)
 		}
 		b = b.Preds[0]
 		idx = len(b.Instrs)
 	}
 	return v
+}
+
+// resolveLoadDom: the load sits behind a join. If exactly one store to the cell in the enclosing function is the
+// latest one that dominates the load, no other store of the function can run between the two, and no closure that
+// captures the cell writes to it, the load yields that store's value.
+func resolveLoadDom(u *ssa.UnOp, a *ssa.Alloc) ssa.Value {
+	fn := u.Parent()
+	var stores []*ssa.Store
+	refs := a.Referrers()
+	if refs == nil {
+		return u
+	}
+	for _, rf := range *refs {
+		switch x := rf.(type) {
+		case *ssa.Store:
+			if x.Addr == ssa.Value(a) {
+				stores = append(stores, x)
+			}
+		case *ssa.MakeClosure:
+			// a closure that captures the cell and stores into it could run at any call
+			g := x.Fn.(*ssa.Function)
+			for k, bnd := range x.Bindings {
+				if bnd != ssa.Value(a) || k >= len(g.FreeVars) {
+					continue
+				}
+				fv := g.FreeVars[k]
+				if frefs := fv.Referrers(); frefs != nil {
+					for _, fr := range *frefs {
+						if st, ok := fr.(*ssa.Store); ok && st.Addr == ssa.Value(fv) {
+							return u
+						}
+					}
+				}
+			}
+		}
+	}
+	var latest *ssa.Store
+	for _, st := range stores {
+		if !instrDominates(st, u) {
+			continue
+		}
+		if latest == nil || instrDominates(latest, st) {
+			latest = st
+		}
+	}
+	if latest == nil {
+		return u
+	}
+	for _, st := range stores {
+		if st == latest {
+			continue
+		}
+		if existsPath(fn, latest, st, nil) && existsPath(fn, st, u, nil) {
+			return u
+		}
+	}
+	return latest.Val
 }
 
 // assumeField builds an assumption map: every branch in fn on a load of the named struct field takes val.
